@@ -15,8 +15,10 @@ func init() {
 		"(R1) every return of the certificate, TBSCertificate, certificate-list, CRL, key and CSR parsers has one of the shapes (object, nil), (object, error classified non-fatal by IsFatal) or (nil, fatal error) — evaluated per abstract outcome of every call that feeds the return, with the Fatal flags of *Errors entries read from the errorInfo table — and IsFatal itself has the decision table nil⇒false, NonFatalErrors⇒false, *Errors⇒Fatal(), else true; only plain errors are ever put into a NonFatalErrors list; "+
 		"(R2) every strict-parse→lax-retry pair re-parses the same bytes into the same destination, returns the lax error when the retry fails and records the strict error as non-fatal when it succeeds; "+
 		"(R3) Raw, RawTBSCertificate, RawSubjectPublicKeyInfo, RawSubject and RawIssuer are assigned, by parseCertificate only, from the raw-content fields that the ASN.1 decoder filled from the caller's input, and the entry points hand parseCertificate the structure decoded from their own input; "+
-		"(R4) the per-certificate step of ParseCertificates is the step of ParseCertificate (same strict/lax sequence on the remaining bytes, same parseCertificate call on the decoded structure, same error merge, same final error gate), each certificate starting where the previous one ended. "+
-		"NOT covered: totality (absence of panics, termination) of the parsers; agreement of field values with crypto/x509 on well-formed certificates; that a well-formed certificate parses with no error at all; that the ASN.1 decoder's RawContent/FullBytes are sub-slices of its input (C10.R4); nil entries inside a returned certificate slice.",
+		"(R4) the per-certificate step of ParseCertificates is the step of ParseCertificate (same strict/lax sequence on the remaining bytes, same parseCertificate call on the decoded structure, same error merge, same final error gate), each certificate starting where the previous one ended; "+
+		"(R7) every name list parseSANExtension fills takes part in the 'parsed nothing' test of a critical subjectAltName; "+
+		"(R8) in every parser function the fork shares by name and shape with the crypto/x509 of the toolchain (parseNameConstraintsExtension, parseSANExtension, the key parsers, the name helpers), every non-error result, every field written through a pointer parameter and every field of a returned object depends — by data flow through values, memory cells and per-call-site summaries of closures and package functions, and by the conditions that select between definitions — on every input part (parameter, call into another package identified by callee, constant arguments and written argument) the standard library computes it from: the 'unhandled' verdict of a name-constraints extension on the permitted and on the excluded subtrees, each Permitted…/Excluded… list on its own subtree, each SAN list on the extension bytes. "+
+		"NOT covered: totality (absence of panics, termination) of the parsers; agreement of field values with crypto/x509 on well-formed certificates beyond (R6)-(R8) — R8 establishes which inputs a value depends on, not the function computed from them (an inverted flag or a wrong constant passes), and does not compare functions the fork implements over other decoders than the library (parseCertificate and its extension switch, parsePublicKey, the CSR parser); that a well-formed certificate parses with no error at all; that the ASN.1 decoder's RawContent/FullBytes are sub-slices of its input (C10.R4); nil entries inside a returned certificate slice.",
 		runC11)
 }
 
@@ -169,6 +171,9 @@ func runC11(r *Run) {
 
 	r.Rule("C11.R7")
 	c11SANLists(r)
+
+	r.Rule("C11.R8")
+	c11StdDeps(r)
 }
 
 // ---- IsFatal decision table ---------------------------------------------------------
